@@ -279,6 +279,14 @@ func (conn *Conn) recv() {
 			})
 		}
 	}
+	if !conn.directIO {
+		// Responses that were completely received before the connection
+		// ended are still queued for decoding; deliver them before the
+		// remaining calls are failed.
+		drained := make(chan struct{})
+		pipeline.Schedule(func() { close(drained) })
+		<-drained
+	}
 	conn.mutex.Lock()
 	conn.shutdown = true
 	if err == io.EOF {
